@@ -17,6 +17,9 @@ func init() {
 			"Not decided: the k-th request / k-th yield pairing and per-caller order over all interleavings with more requests than the channel buffer - schedule properties; what happens when the target finishes first (C15).",
 		Trusted: commonTrusted,
 		Run:     runC14,
+		Relies: []Dep{
+			{Prop: "C11", Rule: "R3", Keys: []string{"doSubscribe/"}, Floor: 2, Why: "YieldFromIO waits for the OnNext of the MonadIO it subscribes to: Subscribe must deliver exactly one OnNext per evaluation, whatever the value"},
+		},
 	})
 }
 
